@@ -39,7 +39,7 @@ META = dict(
                 'PARTIAL: the executable relation isBin24 of the model and the set IsF32 of the proof are two renderings of '
                 'the float32 format tied only by the correspondence run; there is no Lean model of the whole loader, so "reloaded model == model" for whole documents '
                 'is established by the oracle on generated and shipped documents, not by a theorem.'),
-    technique='Lean 4 theorems on rounding stability over ordered fields + kernel-evaluated tables + correspondence of the rounding relations with the runtime + whole-document round-trip oracle',
+    technique='Lean 4 theorems on rounding stability over ordered fields (binary and decimal grids proved) + kernel-evaluated tables + correspondence of the rounding relations with the runtime + whole-document round-trip oracle (constructed, loaded from generated files, and such files with one item removed)',
 )
 
 
